@@ -1118,6 +1118,13 @@ CHECKS = {
     },
     "C14": {
         "bin": "c14",
+        # the trust anchor's numbers under an operator-chosen manifest number
+        # need a signer outside the daemon: the C15 worker plays one; in this
+        # mode it reports (and this check keeps) only "manifest number = CRL
+        # number" of the published trust-anchor objects
+        "aux": [{"bin": "c15", "args": {"c14-numbers": 1},
+                 "shards": {"quick": 1, "thorough": 2},
+                 "budget_frac": 0.8, "keep_prefix": "c14:"}],
         "level": "exploration",
         "quick": {"shards": 12, "budget_s": 60, "min_evaluations": 1200},
         "thorough": {"shards": 14, "budget_s": 900, "min_evaluations": 20000},
@@ -1139,7 +1146,11 @@ CHECKS = {
             "each manifest threshold and 1 h before/after each object "
             "threshold. evaluations = per key set and per object judgements "
             "of a maintenance run + payload comparisons + manifest/CRL "
-            "number comparisons at every observation. distinct_nontrivial = "
+            "number comparisons at every observation. One (thorough: two) "
+            "auxiliary worker plays an external trust-anchor signer whose "
+            "signing sessions carry an operator-chosen manifest number in "
+            "every second exchange: the published TA manifest and CRL must "
+            "carry the same number after each. distinct_nontrivial = "
             "distinct (timing configuration, key state, due/not-due/"
             "boundary/nothing-due, object kind or run mode) cells."
         ),
